@@ -109,6 +109,12 @@ def present(vals, fmt, scale=None):
         table = {names[i]: vv[i] for i in range(n)}
         back = {names[i]: i + 1 for i in range(n)}
         return names, table.__getitem__, back
+    if fmt == "repnames":   # a list of names in which equal-valued items carry the SAME name (repeated items), with a value function
+        names = ["n%d" % v for v in vv]
+        back = {}
+        for i, nm in enumerate(names):
+            back.setdefault(nm, []).append(i + 1)
+        return names, (lambda nm: int(nm[1:])), back
     if fmt == "iddict":   # dict keyed by the ids themselves (used when values and names must be told apart cheaply)
         d = {i + 1: vv[i] for i in range(n)}
         return d, None, {i + 1: i + 1 for i in range(n)}
@@ -119,8 +125,16 @@ def lists_to_ids(lists, vals_presented, back):
     """translate returned bins (lists of items) to lists of ids; unknown items become 0, so that TLC rejects them"""
     res = []
     if back is not None:
+        pools = {k: list(v) for k, v in back.items() if isinstance(v, list)}
         for b in lists:
-            res.append([int(back.get(_key(x), 0)) for x in b])
+            row = []
+            for x in b:
+                kx = _key(x)
+                if kx in pools:
+                    row.append(pools[kx].pop(0) if pools[kx] else 0)
+                else:
+                    row.append(int(back.get(kx, 0)))
+            res.append(row)
         return res
     # plain values: match each returned value with the smallest unused id having that value
     pool = {}
